@@ -32,9 +32,9 @@ ASSUMPTIONS = [
 NAMES = ["add_reactions", "readd", "readd", "detached_bounds", "detached_arith", "remove_reactions", "add_metabolites", "remove_metabolites", "add_boundary", "rxn_add_mets", "bounds", "bounds_seq",
          "rule", "gene_state", "knock_out_model_genes", "remove_genes", "rename_genes", "rename_rxn", "rename_met", "objective",
          "direction", "imul", "iadd", "copy", "solver", "optimize", "add_cons", "add_var", "remove_cons", "repair", "add_group",
-         "remove_group", "group_members", "from_string", "inplace_meta", "tolerance", "merge"]
+         "remove_group", "group_members", "from_string", "inplace_meta", "tolerance", "merge", "prune"]
 STRUCTURAL = {"add_reactions", "readd", "remove_reactions", "add_metabolites", "remove_metabolites", "add_boundary", "rxn_add_mets",
-              "imul", "iadd", "rename_rxn", "rename_met", "remove_genes", "rename_genes", "from_string", "merge"}
+              "imul", "iadd", "rename_rxn", "rename_met", "remove_genes", "rename_genes", "from_string", "merge", "prune"}
 PASSIVE = {"optimize", "repair", "copy", "solver", "add_cons", "add_var", "remove_cons", "detached_arith"}
 # solver-side or analysis calls whose success depends on the solver (infeasible models, MILP on glpk_exact): either
 # outcome is fine for C02, the content comparison still runs
@@ -103,6 +103,8 @@ def check_case(case, ctx):
             if out.split(":", 1)[1] not in types:
                 raise PropertyViolation(f"{name}:wrong-exception", f"{brief} raised {out.split(':', 1)[1]}, documented: {types}")
             classes.add("~documented-raise")
+        if name == "prune" and out == "ok" and world.pruned[0] != world.pruned[1]:
+            raise PropertyViolation("prune:wrong-list", f"{brief} reported {world.pruned[1]} as removed, unused were {world.pruned[0]}")
         _compare(world.model, ref, f"{name}[{out.split(':')[0]}]", brief)
         observe.audit_crossrefs(world.model, f"{name}[{out.split(':')[0]}]")
         for old in world.retired[-1:]:
